@@ -6,9 +6,15 @@ CLAIMS = {
   "note": "Widths enumerated up to W (not unbounded); spec/sem.py is trusted as the reference semantics; pyvc encoding and z3/cvc5 trusted; structural-induction step is a prose argument.",
   "technique": "contract-based deductive verification: staged contracts on generated code, VCs by exhaustive symbolic execution, z3",
  },
+ "C02": {
+  "text": "Staged contract proof of the statement semantics: for every enumerated module template (each assignable target kind nested to depth 2, right-hand sides narrower/equal/wider and signed/unsigned, comb and sync, control-flow programs) the real simulator code generators are run and z3 proves for ALL signal values that every signal's next value equals the reference fold 'initial/previous value overridden by the active assignments in program order', a whole-view postcondition so bits outside the addressed window or not driven by the fragment must be unchanged. Separately the statements the real Module DSL builds for If/Elif/Else, Switch/Case/Default programs and FSMs (incl. nested) are proved to mean what the reference interpreter of the program says (first non-zero test, first matching pattern, default, program order; initial state, ongoing(), transitions).",
+  "design_ref": "DESIGN.md 3B, 4/C02",
+  "note": "Structures are enumerated (widths <= W, nesting depth <= 2, If chains <= 4 tests, FSMs <= 5 states); spec/sem.py and spec/stmt.py trusted as reference; _PySignalState.update used through its contract; netlist lowering of the same semantics is C04's.",
+  "technique": "contract-based deductive verification: staged statement contracts + DSL lowering contracts, VCs by exhaustive symbolic execution, z3",
+ },
 }
 NOT_APPLICABLE = {
  "C14": "reflective generators, attribute proxies and a 120-line lock-step loop over heterogeneous objects (flatten, is_compliant, connect) are outside the subset a VC generator built here models soundly; the reachable flip algebra is too small to carry the property (DESIGN.md 4/C14)",
 }
-for _p in ["C02","C03","C04","C05","C06","C07","C08","C09","C10","C11","C12","C13","C15","C16","C17","C18","C19","C20"]:
+for _p in ["C03","C04","C05","C06","C07","C08","C09","C10","C11","C12","C13","C15","C16","C17","C18","C19","C20"]:
     NOT_APPLICABLE.setdefault(_p, "check not built yet in this session (work in progress; see DESIGN.md section 4 for the plan)")
